@@ -30,6 +30,7 @@ const (
 	sigF1item   = "F1: CAT/CATPUSHDATA changed another stack item (shared backing array)"
 	sigListSlot = "vm.Verify wrote a slot of the caller's Arguments / StateData list (the VM's stack is the caller's slice)"
 	sigTwice    = "running vm.Verify twice on the same context gives different answers"
+	sigEqual     = "EQUAL / EQUALVERIFY does not compare the byte strings (items sharing memory compare equal)"
 	sigProgBytes = "layout:program-bytes — the verdict depends on the bytes that follow the program / predicate slice in memory"
 )
 
@@ -127,6 +128,39 @@ func c06build(c *Ctx, k *vmCase, kind string) *c06layout {
 			buf = append(buf, it...)
 			buf = append(buf, 0x00, 0x00, 0x00, 0x00, 0x51)
 		}
+		buf = append([]byte{}, buf...)
+		buf = buf[:len(buf):len(buf)]
+		l.arrays = [][]byte{buf}
+		for i, it := range items {
+			sl = append(sl, c06slice{0, offs[i], len(it), len(buf) - offs[i]})
+		}
+	case "overlap":
+		// one buffer; arguments that are prefixes of the longest argument START AT THE SAME
+		// ADDRESS as it (overlapping sub-slices of one decoded field), the rest follow
+		longest := -1
+		for i, a := range k.args {
+			if longest < 0 || len(a) > len(k.args[longest]) {
+				longest = i
+			}
+		}
+		var buf []byte
+		offs := make([]int, len(items))
+		buf = append(buf, items[0]...)
+		lpos := -1
+		if longest >= 0 {
+			lpos = len(buf)
+			buf = append(buf, k.args[longest]...)
+		}
+		for i := 1; i < len(items); i++ {
+			ai := i - 1
+			if ai < len(k.args) && longest >= 0 && bytes.HasPrefix(k.args[longest], items[i]) {
+				offs[i] = lpos
+				continue
+			}
+			offs[i] = len(buf)
+			buf = append(buf, items[i]...)
+		}
+		buf = append(buf, 0x00, 0x01)
 		buf = append([]byte{}, buf...)
 		buf = buf[:len(buf):len(buf)]
 		l.arrays = [][]byte{buf}
@@ -253,7 +287,7 @@ func (l *c06layout) context(k *vmCase) *vm.Context {
 	for _, s := range l.state {
 		state = append(state, l.slice(s))
 	}
-	mode := map[string]string{"fresh": "exact", "spare": "spare", "shared": "sub", "guard": "subtight", "witness": "spare", "complete": "sub"}[l.name]
+	mode := map[string]string{"fresh": "exact", "spare": "spare", "shared": "sub", "guard": "subtight", "witness": "spare", "complete": "sub", "overlap": "exact"}[l.name]
 	ctx.Arguments, l.outerArgs = c06list(args, mode)
 	ctx.StateData, l.outerState = c06list(state, mode)
 	if l.asset != nil {
@@ -347,13 +381,31 @@ func c06program(c *Ctx, depth int) []byte {
 			out = append(out, []byte{0xab, 0xa8, 0xaa, 0x83, 0x82}[r.Intn(5)]) // HASH160 SHA256 SHA3 INVERT SIZE
 		case x < 90:
 			out = append(out, []byte{0x87, 0x84, 0x85, 0x75, 0x6d}[r.Intn(5)])
-		case x < 96 && depth < 2:
+		case x < 94 && depth < 2:
 			// predicate taken from the stack or pushed; items are handed to the child by slice header
 			pred := c06program(c, depth+1)
 			out = append(out, num(int64(r.Intn(3)))...)
 			out = append(out, vm.PushDataBytes(pred)...)
 			out = append(out, num(int64(r.Intn(2)*r.Intn(300)))...)
 			out = append(out, 0xc0)
+		case x < 99 && depth < 3:
+			// an item compared with a proper prefix / suffix-free cut of itself that starts at the
+			// same address: DUP n LEFT EQUAL, DUP 0 n SUBSTR EQUAL(VERIFY), OVER n LEFT EQUAL
+			n := int64(1 + r.Intn(4))
+			switch r.Intn(4) {
+			case 0:
+				out = append(append(out, 0x76), num(n)...)
+				out = append(out, 0x80, 0x87)
+			case 1:
+				out = append(append(append(out, 0x76), num(0)...), num(n)...)
+				out = append(out, 0x7f, []byte{0x87, 0x88}[r.Intn(2)])
+			case 2:
+				out = append(append(out, vm.PushDataBytes(rb(2+r.Intn(6)))...), 0x76)
+				out = append(append(out, num(n)...), 0x80, 0x87)
+			default:
+				out = append(append(out, 0x76), num(n)...)
+				out = append(out, 0x80, 0x7c, 0x87) // … SWAP EQUAL
+			}
 		default:
 			out = append(out, 0x76, 0x51, 0x80) // DUP 1 LEFT: a prefix sharing the original's array
 			out = append(out, vm.PushDataBytes(rb(1+r.Intn(3)))...)
@@ -450,6 +502,29 @@ func c06hasTruncated(k *vmCase) (res bool) {
 	return false
 }
 
+// c06overlapCase: witness arguments that are prefixes of one another (in the `overlap` layout they
+// start at the same address), compared by EQUAL / EQUALVERIFY.
+func c06overlapCase(c *Ctx) *vmCase {
+	r := c.Rng
+	k := &vmCase{vmVersion: 1, limit: 20000, entryID: make([]byte, 32), txVersion: u64p(1)}
+	r.Read(k.entryID)
+	x := make([]byte, 2+r.Intn(8))
+	r.Read(x)
+	n := 1 + r.Intn(len(x)-1)
+	if r.Intn(5) == 0 {
+		n = len(x) // genuinely equal
+	}
+	k.args = [][]byte{cp(x), cp(x[:n])}
+	if r.Intn(2) == 0 {
+		k.args[0], k.args[1] = k.args[1], k.args[0]
+	}
+	if r.Intn(3) == 0 {
+		k.args = append([][]byte{cp(x[:1+r.Intn(len(x))])}, k.args...)
+	}
+	k.code = [][]byte{{0x87}, {0x88, 0x51}, {0x7c, 0x87}, {0x6e, 0x87, 0x69, 0x87}, {0x87, 0x91}}[r.Intn(5)]
+	return k
+}
+
 func c06case(c *Ctx) *vmCase {
 	r := c.Rng
 	k := &vmCase{vmVersion: 1, limit: 20000, entryID: make([]byte, 32), txVersion: u64p(1)}
@@ -519,7 +594,7 @@ func c06catCheck(text string, args [][]byte) string {
 
 func c06one(c *Ctx, k *vmCase, tag string) {
 	var first string
-	for _, kind := range []string{"fresh", "spare", "shared", "guard", "witness", "complete"} {
+	for _, kind := range []string{"fresh", "spare", "shared", "guard", "witness", "complete", "overlap"} {
 		l := c06build(c, k, kind)
 		before := make([][]byte, len(l.arrays))
 		for i := range l.arrays {
@@ -529,7 +604,7 @@ func c06one(c *Ctx, k *vmCase, tag string) {
 		ctx := l.context(k)
 		snapA, snapS := c06snap(l.outerArgs), c06snap(l.outerState)
 		lenA, lenS := len(ctx.Arguments), len(ctx.StateData)
-		res := runVMContext(ctx, k.limit, kind == "fresh")
+		res := runVMContext(ctx, k.limit, kind == "fresh" || kind == "overlap")
 		arrs := c06arrays(l.arrays)
 		if res.watchdog || res.class == "unexpected" {
 			arrs = "?"
@@ -560,11 +635,19 @@ func c06one(c *Ctx, k *vmCase, tag string) {
 				failCapped(c, sigTwice, fmt.Sprintf("layout %s first: %s  second: %s", kind, res.line, again.line))
 			}
 		}
+		if kind == "overlap" {
+			if bad := equalCheck(res.sink.keep.String(), k.args); bad != "" {
+				failCapped(c, sigEqual, fmt.Sprintf("layout overlap code=%x args=%s: %s", k.code, hxList(k.args), bad))
+			}
+		}
 		// direct oracle 2: layout independence
 		if kind == "fresh" {
 			first = res.line
 			if bad := c06catCheck(res.sink.keep.String(), k.args); bad != "" {
 				failCapped(c, sigF1item, bad)
+			}
+			if bad := equalCheck(res.sink.keep.String(), k.args); bad != "" {
+				failCapped(c, sigEqual, fmt.Sprintf("code=%x: %s", k.code, bad))
 			}
 		} else if res.line != first {
 			sig := sigF1layout
@@ -577,7 +660,7 @@ func c06one(c *Ctx, k *vmCase, tag string) {
 }
 
 func runC06(c *Ctx) {
-	c.Rule = "programs over the aliasing-relevant alphabet (pushes, DUP/OVER/2DUP/IFDUP/TUCK/PICK, LEFT/RIGHT/SUBSTR, CAT/CATPUSHDATA, SWAP/ROT/alt stack, PROGRAM/ENTRYID/ASSET/OUTPUTID/TXSIGHASH, hashes, INVERT, nested CHECKPREDICATE whose predicate and arguments are stack items, the chain DUP 1 LEFT x CAT), 40% of the programs start with (or consist of) a write that stays inside the supplied stacks (SWAP, NIP NIP, ROT, DROP 1, INVERT, SHA256 <digest> EQUAL, FROMALTSTACK 1ADD TOALTSTACK, 1ADD …); 1..4 arguments, 0..2 state items; a quarter of the cases are programs / predicates (run from a witness argument by `0 SWAP 0 CHECKPREDICATE` or pushed) that END IN A TRUNCATED INSTRUCTION (JUMP/JUMPIF with 0..3 operand bytes, PUSHDATA1/2/4 with missing length bytes or a length reaching 1..3 bytes past the end, DATA_n short by 1..3); each program in six memory layouts of the bytes (fresh exact capacity / spare capacity / one shared buffer / shared buffer with guard bytes / arguments as items of one ReadVarstrList-style witness buffer with the program followed by completing bytes / one buffer where every item is followed by bytes completing the instruction) combined with four layouts of the argument and state LISTS (exact / spare capacity behind the list / sub-slice of a longer list with and without capacity); after each run the caller's byte arrays and every slot of the caller's lists are compared with snapshots and the same context is verified a second time; a case is distinct by its op line"
+	c.Rule = "programs over the aliasing-relevant alphabet (pushes, DUP/OVER/2DUP/IFDUP/TUCK/PICK, LEFT/RIGHT/SUBSTR, CAT/CATPUSHDATA, SWAP/ROT/alt stack, PROGRAM/ENTRYID/ASSET/OUTPUTID/TXSIGHASH, hashes, INVERT, nested CHECKPREDICATE whose predicate and arguments are stack items, the chain DUP 1 LEFT x CAT), 40% of the programs start with (or consist of) a write that stays inside the supplied stacks (SWAP, NIP NIP, ROT, DROP 1, INVERT, SHA256 <digest> EQUAL, FROMALTSTACK 1ADD TOALTSTACK, 1ADD …); 1..4 arguments, 0..2 state items; a quarter of the cases are programs / predicates (run from a witness argument by `0 SWAP 0 CHECKPREDICATE` or pushed) that END IN A TRUNCATED INSTRUCTION (JUMP/JUMPIF with 0..3 operand bytes, PUSHDATA1/2/4 with missing length bytes or a length reaching 1..3 bytes past the end, DATA_n short by 1..3); an eighth of the cases compare witness arguments that are prefixes of one another with EQUAL / EQUALVERIFY, and the grammar emits DUP n LEFT EQUAL / DUP 0 n SUBSTR EQUAL(VERIFY) chains (items starting at the same address with different lengths); each program in seven memory layouts of the bytes (… plus `overlap`: arguments that are prefixes of the longest argument start at the same address inside one buffer) (fresh exact capacity / spare capacity / one shared buffer / shared buffer with guard bytes / arguments as items of one ReadVarstrList-style witness buffer with the program followed by completing bytes / one buffer where every item is followed by bytes completing the instruction) combined with four layouts of the argument and state LISTS (exact / spare capacity behind the list / sub-slice of a longer list with and without capacity); after each run the caller's byte arrays and every slot of the caller's lists are compared with snapshots and the same context is verified a second time; a case is distinct by its op line"
 	lines := c.CorpusLines()
 	if c.Replay != "" {
 		lines = c.ReplayLines()
@@ -596,6 +679,10 @@ func runC06(c *Ctx) {
 	for i := 0; i < c.N; i++ {
 		if i%4 == 3 {
 			c06one(c, c06truncCase(c), "trunc")
+			continue
+		}
+		if i%8 == 1 {
+			c06one(c, c06overlapCase(c), "overlap")
 			continue
 		}
 		c06one(c, c06case(c), "grammar")
